@@ -2,8 +2,8 @@ import DustVerif.Model.Listener
 import DustVerif.Driver.Util
 /-! Driver of engine `listen` (C33): predicts, line by line, the canonicalised answers of the `dsim` scenario
     sub-language emitted by vlib/listen_common.py. Handles are answered `*` (wildcard); `log` is answered as the
-    sorted multiset of `<owner>.<callback> src=<entity> x<count>` (count `+` for the kinds the code repeats on
-    every worker iteration: deadline, incompatible QoS, inconsistent topic). Anything else: `bad-op`. -/
+    sorted multiset of `<owner>.<callback> src=<entity> x<count>` (count `+` for deadline callbacks, whose
+    multiplicity is the subject of C30). Anything else: `bad-op`. -/
 namespace DustVerif.Driver.ListenEngine
 open DustVerif.Listener DustVerif.Driver
 
@@ -72,9 +72,9 @@ def insertSorted (x : String) : List String → List String
 
 def sortStrings (l : List String) : List String := l.foldl (fun acc x => insertSorted x acc) []
 
-/-- callbacks the code repeats on every worker iteration while the cause persists -/
+/-- callbacks compared as "at least one per receiver and window" -/
 def repeating (line : String) : Bool :=
-  ["deadline_missed", "incompatible_qos", "inconsistent_topic"].any (fun k => (line.splitOn k).length > 1)
+  ["deadline_missed"].any (fun k => (line.splitOn k).length > 1)
 
 def countEq (x : String) (l : List String) : Nat := (l.filter (· == x)).length
 
@@ -186,9 +186,9 @@ def step (w : World) (line : String) : World × String :=
       else (w, "bad-op")
     | none => (w, "bad-op")
   | ["status", n, "inconsistent_topic"] =>
-    if kindIs w n .topic then
-      (iterate w, if w.persist.any (fun p => p.1 == .inconsistentTopic && p.2 == n) then "ok total>0" else "ok total=0")
-    else (w, "bad-op")
+    match w.find n with
+    | some e => if e.kind == .topic then (iterate w, s!"ok total={e.known.length}") else (w, "bad-op")
+    | none => (w, "bad-op")
   | ["read", n] =>
     match w.find n with
     | some e =>
